@@ -68,6 +68,45 @@ def run(ctx):
     R_cnt = ctx.rule("C15.header-counts-are-lengths", "every count in MOHD is the len() of a list", floor=5)
 
     W = {norm(f.path).split("::")[-1]: f for f in wmo.fn_list if "writer::WmoWriter::write_" in f.path and f.kind != "Closure" and f.hir}
+
+    # a list's chunk is written unconditionally, or under a condition on that same list / the target version — never
+    # under a condition on a *different* list (header counts are lengths of every list, so a skipped chunk breaks them)
+    R_guard = ctx.rule("C15.chunk-guard-mentions-only-own-list", "in write_root / write_group each `self.write_X(.., &obj.F, ..)` is guarded at most by conditions on obj.F itself or on the version", floor=10)
+    from .c07 import enclosing_if_conditions
+    for top in ("write_root", "write_group"):
+        tf = W.get(top)
+        if tf is None:
+            ctx.bad(R_guard, "%s|missing" % top, "-", "function not found", "anchor gone")
+            continue
+        ctx.saw_fn(tf)
+        params = {b_ for p_ in tf.hir["params"] for b_ in hirq.pat_binds(p_)}
+
+        def obj_fields(n):
+            out = set()
+            for x in hirq.walk(n):
+                if x.get("k") == "field":
+                    base = hirq.strip(x["e"])
+                    if base.get("k") == "path" and base["res"].get("local") in params:
+                        out.add(x["name"])
+            return out
+        for c in hirq.walk(tf.hir["body"]):
+            if c.get("k") != "mcall" or not c["m"].startswith("write_") or hirq.render(hirq.strip(c["recv"])) != "self":
+                continue
+            own = set()
+            for a in c["args"]:
+                own |= obj_fields(a)
+            if not own:
+                continue
+            foreign = []
+            for side, cd in enclosing_if_conditions(tf.hir["body"], c):
+                extra = obj_fields(cd) - own
+                if extra:
+                    foreign.append((hirq.render(cd)[:70], sorted(extra)))
+            if foreign:
+                ctx.bad(R_guard, "%s|%s|guard" % (top, c["m"]), "%s:%d" % (tf.file, c["ln"]), "%s(%s) is only called when `%s` — a condition on %s" % (c["m"], ", ".join(sorted(own)), foreign[0][0], foreign[0][1]),
+                        "when that other list is empty this list's chunk is not written although the header still counts its entries: the parsed root has fewer entries than were written and a second write differs")
+            else:
+                ctx.ok(R_guard, {"fn": top, "call": c["m"], "list": sorted(own)})
     R = {norm(f.path).split("::")[-1]: f for f in wmo.fn_list if "parser::WmoParser::parse_" in f.path and f.kind != "Closure" and f.hir}
 
     for wn, rn in sorted(PAIRS.items()):
